@@ -1,16 +1,16 @@
 #!/bin/sh
-# tools/seed_keep.sh <ID> [base-repo] — confirm every candidate /tmp/seed/out/<ID>/<k> with seed_verify.sh and keep the
+# tools/seed_keep.sh <ID> [base-repo] [candidate-root] [tag] — confirm every candidate /tmp/seed/out/<ID>/<k> with seed_verify.sh and keep the
 # confirmed ones as /verif/seeded/<ID>-<k>/ (patch.diff, demo.rs, notes.md, meta.json with the confirmation record).
-ID=$1; BASE=${2:-/repo}
-for d in /tmp/seed/out/$ID/[0-9]*; do
+ID=$1; BASE=${2:-/repo}; SRC=${3:-/tmp/seed/out}; TAG=${4:-}
+for d in $SRC/$ID/[0-9]*; do
   k=$(basename $d)
   [ -f $d/patch.diff ] && [ -f $d/demo.rs ] || continue
   OUT=$(/verif/tools/seed_verify.sh $d $BASE 2>&1 | head -1)
-  echo "$ID-$k: $OUT"
+  echo "$ID-$TAG$k: $OUT"
   case "$OUT" in CONFIRMED*)
-    T=/verif/seeded/$ID-$k; mkdir -p $T
+    T=/verif/seeded/$ID-$TAG$k; mkdir -p $T
     cp $d/patch.diff $d/demo.rs $T/; [ -f $d/notes.md ] && cp $d/notes.md $T/
-    python3 - "$ID" "$k" "$OUT" "$BASE" <<'PY'
+    python3 - "$ID" "$TAG$k" "$OUT" "$BASE" <<'PY'
 import json,sys,os,subprocess
 pid,k,out,base=sys.argv[1:5]
 t=f"/verif/seeded/{pid}-{k}"
